@@ -357,7 +357,19 @@ def _constv(sym: Sym, e: ast.expr, default):
     try:
         return sym.prog.consteval(e, sym.mod, sym._cenv)
     except NotConst:
-        return default
+        pass
+    # a local / parameter bound to a constant in the symbolic environment (helper called with literal arguments)
+    if isinstance(e, ast.Name) and e.id in sym.env:
+        v = sym.env[e.id]
+        if isinstance(v, Lin) and v.is_const() and v.const.denominator == 1:
+            return int(v.const)
+        t = v.single_term() if isinstance(v, Lin) else v
+        if isinstance(t, tuple) and t and t[0] == "const":
+            try:
+                return ast.literal_eval(t[1])
+            except (ValueError, SyntaxError):
+                return default
+    return default
 
 
 def _is_byte(t: Tuple) -> bool:
